@@ -43,6 +43,9 @@ def gen_case(rng):
         files[st + ext] = "# title\n\n- " + " ".join(words) + ("\n" if rng.random() < 0.8 else "")
     if rng.random() < 0.3:
         files["README.txt"] = "[[%s]] not a zorg file" % src
+    # pages whose own name or directory starts with a dot are pages like any other
+    for hidden in rng.sample([".inbox.zo", ".archive/old.zo", ".archive/deep/more.zot", "sub/.drafts/d.zoq"], rng.choice([0, 0, 1, 2])):
+        files[hidden] = "# hidden\n\n- see [[%s]] and [[%s#x]] %s\n" % (src, src, rng.choice(link_variants(src)))
     files.setdefault(src + ".zo", "# t\n")
     # destination directory must exist
     if "/" in dst:
